@@ -19,6 +19,9 @@ DFF = "litedram/dfii.py"
 DIF = "litedram/phy/dfi.py"
 UTF = "litedram/phy/utils.py"
 MOF = "litedram/phy/model.py"
+L4F = "litedram/phy/lpddr4/commands.py"
+L5F = "litedram/phy/lpddr5/commands.py"
+L4S = "litedram/phy/lpddr4/sim.py"
 
 
 def M(id, prop, ob, file, old, new, expect="refuted", **kw):
@@ -226,4 +229,16 @@ MUTANTS = [
     M("c19.4-write-stage", "C19", "C19.4", MOF, "            for i in range(self.settings.write_latency):", "            for i in range(self.settings.write_latency + 1):"),
     M("c19.5-rbc", "C19", "C19.5", MOF, "start = (row*nbanks*model_column_size + bank*model_column_size)", "start = (row*nbanks*model_column_size + bank*column_size)"),
     M("c19.5-memlen", "C19", "C19.5", MOF, "bank_mem_len   = nrows*ncols//(burst_length*nphases)", "bank_mem_len   = nrows*ncols//burst_length"),
+    # ---- C20 ----
+    M("c20.1-table", "C20", "C20.1", L4F, '"PRECHARGE":    ["L L L L H AB",', '"PRECHARGE":    ["L L L H H AB",'),
+    M("c20.1-act-rows", "C20", "C20.1", L4F, '"ACTIVATE-2":   ["H H R6 R7 R8 R9",     "R0 R1 R2 R3 R4 R5"],', '"ACTIVATE-2":   ["H H R6 R7 R8 R9",     "R1 R0 R2 R3 R4 R5"],'),
+    M("c20.1-slot", "C20", "C20.1", L4F, '_cmd["PRE"]: cmds("DESELECT",   "PRECHARGE"),', '_cmd["PRE"]: cmds("PRECHARGE",   "DESELECT"),'),
+    M("c20.1-ap", "C20", "C20.1", L4F, '"AP":       lambda: self.dfi.address[10],  # auto precharge', '"AP":       lambda: self.dfi.address[11],  # auto precharge'),
+    M("c20.1-mrw-ma", "C20", "C20.1", L4F, "mr_address = self.dfi.bank if is_mrw else self.dfi.address", "mr_address = self.dfi.address"),
+    M("c20.2-sim-const", "C20", "C20.2", L4S, "cond = self.cs_high[:5] == 0b10000,", "cond = self.cs_high[:5] == 0b10001,"),
+    M("c20.3-col-offset", "C20", "C20.3", L5F, "lambda i: self.dfi.address[i + 4],", "lambda i: self.dfi.address[i + 3],"),
+    M("c20.3-map", "C20", "C20.3", L5F, 'CMD["REF"]: cmds("REF"),', 'CMD["REF"]: cmds("PRE"),'),
+    M("c20.4-ca-slip", "C20", "C20.4", UTF, "ca_bs = ConstBitSlip(dw=ca_ser_width, slp=phase*ca_phase_slip, cycles=1)", "ca_bs = ConstBitSlip(dw=ca_ser_width, slp=phase*ca_phase_slip + 1, cycles=1)"),
+    M("c20.4-window", "C20", "C20.4", UTF, "valids_hist[nphases+phase - n_previous:nphases+phase]", "valids_hist[nphases+phase - n_previous + 1:nphases+phase]"),
+    B("c20-twin-rename", "C20", L5F, "        mpc_op = Signal(8)\n        self.comb += If(self.dfi.address == 0,\n            mpc_op.eq(MPC.ZQC_LATCH)\n        ).Else(\n            mpc_op.eq(self.dfi.address)\n        )\n        op = mpc_op if is_mpc else self.dfi.address", "        zq_op = Signal(8)\n        self.comb += If(self.dfi.address == 0,\n            zq_op.eq(MPC.ZQC_LATCH)\n        ).Else(\n            zq_op.eq(self.dfi.address)\n        )\n        op = zq_op if is_mpc else self.dfi.address"),
 ]
